@@ -2,6 +2,15 @@
 
 
 def _cls(r):
+    if r.get("op") == "walk":
+        w = r["W"]
+        ex = r.get("exp") or {}
+        n = len(ex.get("callset", r.get("got", {}).get("callset", [])))
+        return "walk/%s%s/%s/%s" % (w["level"], w["mode"], w.get("dir"), "many" if n >= 4 else "few")
+    if r.get("op") in ("edge", "root"):
+        return "%s/%s%s/%s" % (r["op"], r["level"], r["mode"], r["exp"]["res"])
+    if r.get("op") == "ids":
+        return "ids"
     sh = r.get("shape", {})
     if sh.get("err") == "collision":
         return "graph/collision"
@@ -17,6 +26,29 @@ def _corrupt(recs, seed):
     from vlib import deq
     rnd = random.Random(seed)
     out = []
+    # a recorded walk: one call's result flipped, a call dropped, two calls of different polls swapped, a version more dirty
+    walks = [r for r in recs if r.get("op") == "walk" and len(r["got"]["calls"]) >= 2]
+    for _ in range(min(30, len(walks))):
+        a = copy.deepcopy(rnd.choice(walks))
+        g = a["got"]
+        k = rnd.randrange(4)
+        if k == 0:
+            c = rnd.choice(g["calls"])
+            c["res"] = "same" if c["res"] == "edited" else "edited"
+        elif k == 1:
+            del g["calls"][rnd.randrange(len(g["calls"]))]
+        elif k == 2:
+            i = rnd.randrange(len(g["calls"]) - 1)
+            x, y = g["calls"][i], g["calls"][i + 1]
+            if (x["side"], x["c"] if x["side"] == "B" else x["p"]) == (y["side"], y["c"] if y["side"] == "B" else y["p"]):
+                continue                      # same poll: any order is a behaviour
+            g["calls"][i], g["calls"][i + 1] = y, x
+        else:
+            extra = [v for v in range(1, a["W"]["n"] + 1) if v not in g["dirty"]]
+            if not extra:
+                continue
+            g["dirty"] = sorted(g["dirty"] + [extra[0]])
+        out.append(a)
     cand = [r for r in recs if isinstance(r.get("got"), dict) and r["got"].get("resolve") and len(r["got"].get("apply", {})) >= 2]
     for _ in range(min(40, len(cand))):
         a = rnd.choice(cand)
@@ -40,14 +72,18 @@ def _sig(v):
 
 P = {
     "dir": "graph",
-    "mc": [{"module": "MC_VersionGraph", "cfg": "MC_VersionGraph.cfg", "timeout": {"quick": 900, "thorough": 3000}}],
+    "mc": [{"module": "MC_VersionGraph", "cfg": "MC_VersionGraph.cfg", "timeout": {"quick": 900, "thorough": 3000}},
+           # beyond the listed property: the walk of a change through the graph (src/insert_mappings.rs), see Propagate.tla
+           {"module": "MC_Propagate", "cfg": "MC_Propagate.cfg", "timeout": {"quick": 900, "thorough": 3000}}],
     "trace": {"module": "Trace_VersionGraph", "cfg": "Trace_VersionGraph.cfg"},
     "i2s_n": {"quick": 150, "thorough": 1500},
     "classify_vec": _cls,
     "corrupt": _corrupt,
     "signature": _sig,
     "required_classes": ["graph/ok/h0", "graph/ok/h0/diamond", "graph/ok/h0/unreachable", "graph/ok/h1", "graph/ok/h2", "graph/ok/h3", "graph/ok/h1/diamond", "graph/ok/h1/unreachable", "graph/ok/h2/refused",
-                         "graph/ok/h2/diamond+refused", "graph/refuse/no-root", "graph/refuse/two-roots", "graph/refuse/loop", "graph/refuse/bad-diff-name", "graph/collision"],
+                         "graph/ok/h2/diamond+refused", "graph/refuse/no-root", "graph/refuse/two-roots", "graph/refuse/loop", "graph/refuse/bad-diff-name", "graph/collision",
+                         "walk/cM/None/few", "walk/cM/Both/many", "walk/cM/Up/few", "walk/cM/Down/few", "walk/fM/Both/few", "walk/cJ/None/few", "walk/fJ/Both/few",
+                         "edge/cM/edited", "edge/cM/same", "edge/cM/err", "edge/fJ/edited", "edge/fJ/err", "root/cM/edited", "root/cM/err", "root/fJ/same", "ids"],
     "level_text": "The version graph is specified operationally (directory scan in listing order with the code's add_node / or_insert semantics incl. split names, single-root check, walk with loop detection, get, apply_diffs = fold of Apply (C04's specification) along any shortest root -> version path, contraction of the root on load, extension on output (C11's specification)) and declaratively (what the set of files denotes independent of the listing: versions, lookup names with their split, edges, errors for no root / two roots / malformed diff name / a cycle reachable from the root; unreachable versions are errors at apply_diffs). TLC checks scan = declarative view for every listing explored, answers and depths independent of the listing, over all edge sets of <= 2 edges (thorough: <= 3) plus chains, trees, diamonds (with shortcut, with paths of different length), cycles through / beside / away from the root, disconnected parts, x every root choice (none, one, two) x three families of edit histories (class additions, comment additions that conflict on a path, inner classes contracted in the diffs and extended in the answer) x stray files. Every directory is created on disk (files written from the specification's own line records) and run through the real VersionGraph::resolve / get / apply_diffs / depth; random larger version trees with real diffs, second parents, unreachable versions and stale diffs are validated by TLC against the listing read_dir actually returned.",
     "level_note": "Trusted: TLC, projection of mapping / diff trees, line joiner, src/version_graph.rs compiled into the harness via #[path] with Intermediary / Named / MinecraftVersion supplied by the harness. read_dir order cannot be forced: it is recorded and the specification is evaluated on the recorded listing and on its reverse. Directories in which one name is claimed by two versions (a and a~b) are listing dependent by construction and only required not to panic.",
     "assumptions": ["TLC/SANY/CommunityModules", "harness projection (proj_quill.rs)", "tmpfs under /dev/shm for scratch directories"],
